@@ -42,6 +42,10 @@ func (b Bound) ToRing() Ring {
 
 // Extend grows the bound to include the new point.
 func (b Bound) Extend(point Point) Bound {
+	if b.IsEmpty() {
+		return Bound{Min: point, Max: point}
+	}
+
 	// already included, no big deal
 	if b.Contains(point) {
 		return b
